@@ -15,17 +15,17 @@ EXPLANATION = ('R15.1 Hooke law per component; R15.2 radial tractions == y2 U, y
                'R15.3 volumetric heating weights, zero for real moduli, abs => real non-negative; R15.4 index discipline on a 2x2x2x2 grid; displacements == y1 U, y3 dU/dtheta, y3 dU/dphi / sin.')
 
 
-def mk_inputs(nr, nl, nc, nt, tagf=lambda *a: ''):
+def mk_inputs(nr, nl, nc, nt, tagf=lambda *a: '', tag=''):
     def arr3(name):
-        return Arr(name, default=lambda k: X.atom(f'{name}[{",".join(map(str, k))}]', 'complex'), shape=(nl, nc, nt))
+        return Arr(name, default=lambda k: X.atom(f'{name}{tag}[{",".join(map(str, k))}]', 'complex'), shape=(nl, nc, nt))
     pots = [arr3(n) for n in ('U', 'Ut', 'Up', 'Utt', 'Upp', 'Utp')]
-    y = Arr('y', default=lambda k: X.atom(f'y{k[0] + 1}[{k[1]}]', 'complex'), shape=(6, nr))
-    lon = Arr('lon', default=lambda k: X.atom(f'lon[{k}]'), shape=(nl,))
-    col = Arr('col', default=lambda k: X.atom(f'theta[{k}]'), shape=(nc,))
-    tim = Arr('time', default=lambda k: X.atom(f't[{k}]'), shape=(nt,))
-    rad = Arr('r', default=lambda k: X.atom(f'r[{k}]', 'pos'), shape=(nr,))
-    shear = Arr('mu', default=lambda k: X.atom(f'mu[{k}]', 'complex'), shape=(nr,))
-    bulk = Arr('K', default=lambda k: X.atom(f'K[{k}]', 'complex'), shape=(nr,))
+    y = Arr('y', default=lambda k: X.atom(f'y{k[0] + 1}{tag}[{k[1]}]', 'complex'), shape=(6, nr))
+    lon = Arr('lon', default=lambda k: X.atom(f'lon{tag}[{k}]'), shape=(nl,))
+    col = Arr('col', default=lambda k: X.atom(f'theta{tag}[{k}]'), shape=(nc,))
+    tim = Arr('time', default=lambda k: X.atom(f't{tag}[{k}]'), shape=(nt,))
+    rad = Arr('r', default=lambda k: X.atom(f'r{tag}[{k}]', 'pos'), shape=(nr,))
+    shear = Arr('mu', default=lambda k: X.atom(f'mu{tag}[{k}]', 'complex'), shape=(nr,))
+    bulk = Arr('K', default=lambda k: X.atom(f'K{tag}[{k}]', 'complex'), shape=(nr,))
     return pots, y, lon, col, tim, rad, shear, bulk
 
 
@@ -107,6 +107,28 @@ def run(chk):
         cur['d'] = d
         chk.note_analysed('configurations', f'calculate_strain_stress l={l} on 1x1x1x1 grid')
     chk.note_analysed('paths', f'{n_paths} paths through data-dependent branches of calculate_strain_stress over 3 degrees')
+
+    # R15.6 results of separate calls are separate: what an earlier call returned still holds after a later call on a grid of the same size (buffers kept between calls,
+    # memoised allocators -- functools caches are interpreted -- would hand the same arrays out twice)
+    it.hooks.pop('fork', None)
+    pa = mk_inputs(1, 1, 1, 1, tag='_A'); pb = mk_inputs(1, 1, 1, 1, tag='_B')
+    try:
+        first = it.call(ms, f, pa[0] + list(pa[1:]) + [freq, 2])
+        snap = [dict(getattr(a_, 'store', {})) for a_ in first]
+        second = it.call(ms, f, pb[0] + list(pb[1:]) + [freq, 2])
+        shared = [i_ for i_ in range(min(len(first), len(second))) if first[i_] is second[i_]]
+        changed = [i_ for i_, a_ in enumerate(first) if any(a_.store.get(k_) is not v_ for k_, v_ in snap[i_].items())]
+        ok = not shared and not changed
+        detail = ('; '.join(([f'output {i_} of the two calls is one and the same array' for i_ in shared] + [f'output {i_} of the first call was overwritten by the second call' for i_ in changed])[:3]))
+    except AnalysisError as ex:
+        if 'branch on' not in str(ex):
+            raise
+        ok = None; detail = str(ex)
+    if ok is None:
+        chk.undecide('R15.6', 'two successive calls', detail)
+    else:
+        chk.ob('R15.6', 'calculate_strain_stress called twice on grids of the same size: the tensors the first call returned are still the first problem\'s tensors (separate arrays)', ok, detail, where,
+               key='R15.6|two-calls', method='interpretation of two successive calls in one interpreter state (functools caches modelled)')
 
     # R15.4 index discipline on a 2x2x2x2 grid: element [k, ri, li, ci, ti] may only mention inputs at (ri), (li,ci,ti), (ci)
     pots, y, lon, col, tim, rad, shear, bulk = mk_inputs(2, 2, 2, 2)
